@@ -18,7 +18,8 @@ func init() {
 		Decided: "D1 each Associative/Sequential method of the map type has exactly the documented effect on the underlying Go map: GetValue read[key]; SetValue write[key:=value]; RemoveValue read[key]+delete[key] and returns the value read; RemoveValues only through RemoveValue; RemoveAll only deletes; all views no effect; GetSize/IsEmpty are len; " +
 			"D2 constructors build a map made in the call and store, per visited association, exactly its key and value; " +
 			"D3 views are materialised from the ranged key and value of the same entry; " +
-			"D4 the loops of the map type and its class are in terminating forms.",
+			"D4 the loops of the map type and its class are in terminating forms." +
+			" Also: a loop that deletes entries is not bounded by the map's live size.",
 		NotDecided: "equivalence with a Go map over histories is the language's own semantics once the methods are the direct wrappers D1 shows them to be; iteration order of views is unspecified by design.",
 		Run:        runC14,
 	})
